@@ -368,9 +368,23 @@ fn nodes(complex: bool) -> BoxedStrategy<Vec<(f64, f64)>> {
                 }
             }
         }
-        (1usize..=8, Just(cells).prop_shuffle(), proptest::collection::vec((jit(), jit()), 8))
-            .prop_map(|(n, cells, j)| (0..n).map(|k| (cells[k].0 + j[k].0, cells[k].1 + j[k].1)).collect())
-            .boxed()
+        // a sixth of the complex designs: distinct points of the half-integer lattice in the disc of radius 2 - node
+        // differences that are exactly 1, i, 1+i, 0.5i, ... (unit modulus, purely imaginary, equal moduli)
+        let mut lattice = vec![];
+        for i in -4i32..=4 {
+            for j in -4i32..=4 {
+                let (x, y) = (i as f64 * 0.5, j as f64 * 0.5);
+                if (x * x + y * y).sqrt() <= 2.0 {
+                    lattice.push((x, y));
+                }
+            }
+        }
+        prop_oneof![
+            5 => (1usize..=8, Just(cells).prop_shuffle(), proptest::collection::vec((jit(), jit()), 8))
+                .prop_map(|(n, cells, j)| (0..n).map(|k| (cells[k].0 + j[k].0, cells[k].1 + j[k].1)).collect::<Vec<(f64, f64)>>()),
+            1 => (2usize..=8, Just(lattice).prop_shuffle()).prop_map(|(n, l)| l[..n].to_vec()),
+        ]
+        .boxed()
     } else {
         let cells: Vec<f64> = (-4i32..=4).map(|i| i as f64 * 0.45).collect();
         prop_oneof![
@@ -414,7 +428,7 @@ pub fn run(opts: &Opts) -> i32 {
     spec.enumerated.push(Case { complex: false, kind: 1, xs: vec![(-1.0, 0.0), (0.5, 0.0), (1.25, 0.0)], vals: vec![(1.0, 0.0), (-2.0, 0.0), (0.5, 0.0), (0.25, 0.0)], dvals: vec![(1.0, 0.0), (1.0, 0.0), (-1.0, 0.0)], sampled: true, perm: vec![1, 2, 0], tol: 1e-13, mismatch: 0, newton: None });
     spec.cases = opts.tier.pick(300_000, 6_000_000);
     spec.essential = vec![("lagrange", 0.3), ("hermite", 0.3), ("complex", 0.3), ("permuted", 0.2), ("sampled", 0.3), ("mismatch", 0.05), ("nodes8", 0.05), ("accuracy-class", 0.4)];
-    spec.rule = "generated: 1-8 nodes by grid construction (separation >= 0.2, in [-2,2] or the disc of radius 2; a ninth of the real designs a monotonically listed grid of spacing 0.45/0.5 with gap irregularities 10^[-13,-5]), real and complex; data arbitrary in [-2,2] or sampled from a random polynomial within the degree bound (n-1 Lagrange, 2n-1 Hermite; a fifth of the sampled cases given in Newton form over the listed nodes with one coefficient of order >= 2 scaled by 10^[-10,-4]: a small genuine higher divided difference); a random permutation of the listing order; zeroing tolerance 10^[-14,-6]; mismatched slice lengths. Oracle: order() within the degree bound; node residuals |p(x_i)-y_i|, |p'(x_i)-y'_i| <= 2 tol sum_{k in Z}|x_i|^k(k+1) + eps G(n) S (Z = the coefficients returned as exact zeros - the only ones the final zeroing pass can have touched - unless a divided difference of the listed data is within 32 tol of zero (lagrange: an intermediate may have lost its leading coefficient) or the top Newton coefficient is below 4e-10 (hermite's accumulator), in which case Z = all k), S = max_j sum_k |c_k||x_j|^k(k+1) (G = 64*4^n Lagrange, 64*10^n Hermite); sampled data: coefficients equal the sampled polynomial within 2|V^-1|(residual + 8 n eps S) + tol with the (confluent) Vandermonde inverse computed in the harness; permuted listing satisfies the same inequality; mismatched lengths => Err. Non-trivial = >= 3 nodes and (complex or Hermite or permuted). Distinct = distinct case JSON.".into();
+    spec.rule = "generated: 1-8 nodes by grid construction (separation >= 0.2, in [-2,2] or the disc of radius 2; a sixth of the complex designs distinct points of the half-integer lattice: node differences exactly 1, i, 1+i, ...; a ninth of the real designs a monotonically listed grid of spacing 0.45/0.5 with gap irregularities 10^[-13,-5]), real and complex; data arbitrary in [-2,2] or sampled from a random polynomial within the degree bound (n-1 Lagrange, 2n-1 Hermite; a fifth of the sampled cases given in Newton form over the listed nodes with one coefficient of order >= 2 scaled by 10^[-10,-4]: a small genuine higher divided difference); a random permutation of the listing order; zeroing tolerance 10^[-14,-6]; mismatched slice lengths. Oracle: order() within the degree bound; node residuals |p(x_i)-y_i|, |p'(x_i)-y'_i| <= 2 tol sum_{k in Z}|x_i|^k(k+1) + eps G(n) S (Z = the coefficients returned as exact zeros - the only ones the final zeroing pass can have touched - unless a divided difference of the listed data is within 32 tol of zero (lagrange: an intermediate may have lost its leading coefficient) or the top Newton coefficient is below 4e-10 (hermite's accumulator), in which case Z = all k), S = max_j sum_k |c_k||x_j|^k(k+1) (G = 64*4^n Lagrange, 64*10^n Hermite); sampled data: coefficients equal the sampled polynomial within 2|V^-1|(residual + 8 n eps S) + tol with the (confluent) Vandermonde inverse computed in the harness; permuted listing satisfies the same inequality; mismatched lengths => Err. Non-trivial = >= 3 nodes and (complex or Hermite or permuted). Distinct = distinct case JSON.".into();
     spec.max_shrink_iters = 3000;
     run_spec(spec, opts)
 }
